@@ -216,6 +216,7 @@ def large_int_stream(ctx, n):
 
 
 def correspondence(ctx):
+    jmlib.l3_shape_stream(ctx, ctx.budget(40, 400), "C02")
     rounded_dependent_stream(ctx, ctx.budget(60, 600))
     large_int_stream(ctx, ctx.budget(60, 600))
     variants_stream(ctx, ctx.budget(40, 400))
